@@ -5,6 +5,8 @@ package shmipc
 // C19 - the net.Listener / net.Conn adapter behaves like a stream socket (engine E2 histories, DESIGN.md 5/C19).
 
 import (
+	"strings"
+	"runtime/debug"
 	"encoding/binary"
 	"fmt"
 	"net"
@@ -489,6 +491,21 @@ func nlRun(c nlCase, r *runCtx) {
 			}
 			lnClosed = true
 			r.Label("listener-closed-mid-history")
+			// the client sessions notice the loss of their connection and tear themselves down on the event loop; a call on one
+			// of their streams while that is in progress is known finding D20 (here: Conn.Close -> nil dereference in wakeUpPeer,
+			// probe replays/known/C19-close-races-teardown.json). The history goes on once the teardown has finished.
+			for _, s := range sessions {
+				s := s
+				closing := waitPoked(300*time.Millisecond, s.IsClosed)
+				if closing {
+					waitPoked(10*time.Second, func() bool {
+						s.shutdownLock.Lock()
+						defer s.shutdownLock.Unlock()
+						return s.queueManager == nil
+					})
+					r.Count("waited_for_client_teardown", 1)
+				}
+			}
 		}
 	}
 	for _, h := range hogged {
@@ -608,7 +625,19 @@ func TestVerifC19NetListener(t *testing.T) {
 			"oracle: Accept yields exactly one connection per stream that flushed data (matched by a 4-byte stream tag), Write returns (len(p), nil), Read returns 1..len(p) in-order bytes, deadlines honoured, Accept fails promptly after Close, sessions end once their connections are closed; " +
 			"non-trivial = >= 2 streams or a listener close in mid-history; distinct by case hash",
 		assumptions: []string{"reads are issued for bytes already flushed, or with a short deadline when nothing is flushed", "connections that were queued but never accepted when the listener closed cannot be closed by anybody and are not held against their session"},
-		gen:         genNlCase, run: nlRun})
+		gen: genNlCase, run: func(c nlCase, r *runCtx) {
+			defer func() {
+				if p := recover(); p != nil {
+					st := string(debug.Stack())
+					if _, isHarness := p.(harnessPanic); !isHarness && knownCloseRace(st) && strings.Contains(st, "closeAndWait") {
+						r.ViolSig("close-races-active-user", "a Conn.Close that raced the teardown of its session crashed: %v\n%s", p, trimStack([]byte(st)))
+						return
+					}
+					panic(p)
+				}
+			}()
+			nlRun(c, r)
+		}})
 }
 
 var _ = fmt.Sprintf
